@@ -89,6 +89,31 @@ def run(chk):
             i2 = cs.p2(slot, p2, d, ps)
             i3 = cs.p3(slot, p3, d, ps)
             plan.append(("eq", i2, i3, ps, dirv, sph))
+    # (2) sibling worlds that differ only in their cross section, asked at bit-identical 2-D points one directly after the
+    # other: each must map the point with its own section (nothing about the mapping may be remembered across worlds)
+    import copy as _copy
+    for wi in range(6 if chk.tier == "quick" else 40):
+        rng.seed("%d/c09-2/%d" % (chk.seed, wi))
+        wj, sph = area_world(rng, spherical=(wi % 2 == 1), cross=True)
+        a, b = wj["cross section"]
+        sh = 3.0 if sph else 2e5
+        cl = (lambda v: max(-80.0, min(80.0, v))) if sph else (lambda v: v)
+        variants = [[a, b],
+                    [a, [a[0] + (b[1] - a[1]), cl(a[1] - (b[0] - a[0]))]],
+                    [[a[0] + sh, cl(a[1] - sh)], [b[0] + sh, cl(b[1] - sh)]]]
+        sibs = []
+        for v in variants:
+            w = _copy.deepcopy(wj)
+            w["cross section"] = v
+            sibs.append((w, cs.add_world(w, model=True)))
+        for qi in range(10):
+            ps = prop_list(rng)
+            p2, d = query2d(rng, wj, sph)
+            i2s = [cs.p2(slot, p2, d, ps) for (_w, slot) in sibs]
+            for (w, slot), i2 in zip(sibs, i2s):
+                p3, dirv = map2d(w, sph, p2)
+                i3 = cs.p3(slot, p3, d, ps)
+                plan.append(("eq", i2, i3, ps, dirv, sph))
     impl, model = cs.run()
     chk.evaluations = len(impl)
     bad = [i for i in chk.correspond(impl, model, cs, max_ulp=0) if model[i] != "skip"]
@@ -127,6 +152,7 @@ def run(chk):
     for what, idx in viol[:5]:
         dsc = cs.describe(idx)
         dsc["impl"] = impl[idx]
+        dsc["preceding_probe_lines"] = cs.probe[max(0, idx - 3):idx]
         chk.violation(what, dsc)
     if bad and not viol:
         for i in bad[:3]:
